@@ -22,7 +22,12 @@ from rpyc.core.channel import Channel                               # noqa: E402
 from rpyc.core.async_ import AsyncResultTimeout                     # noqa: E402
 
 PID = "C08"
-KINDS = ("val", "ref", "raise", "surr", "bigint", "badexc", "nested")
+KINDS = ("val", "ref", "raise", "surr", "bigint", "badexc", "nested", "genexit", "baseexc")
+
+
+class Weird(BaseException):
+    """a handler failure that is not an Exception (like GeneratorExit, asyncio.CancelledError)"""
+
 BIG = 10 ** 5000
 
 
@@ -46,6 +51,10 @@ class ServerSvc(_rpyc.Service):
             raise ValueError(BIG, tok)
         if kind == "nested":
             return ("nested", cb(tok))
+        if kind == "genexit":
+            raise GeneratorExit(tok)
+        if kind == "baseexc":
+            raise Weird(tok)
         raise AssertionError(kind)
 
 
@@ -168,6 +177,11 @@ def run_history(hist):
             ok = out == ("V", ("\ud800x", t)) or (out[0] == "E" and out[1].startswith("exc:"))
             if not ok:
                 viol.append(("unencodable-result:%s:%s" % (kind, out[1] if out[0] == "E" else "wrong-value"), "request %d: %r" % (t, out)))
+        elif kind in ("genexit", "baseexc"):
+            # any failure of the handler, whatever its class, is answered with an exception response
+            if not (out[0] == "E" and out[1].startswith("exc:")):
+                viol.append(("handler-failure-not-answered:%s:%s" % (kind, out[1] if out[0] == "E" else "value"),
+                             "request %d (%s): requester observed %r" % (t, kind, str(out)[:200])))
         else:       # bigint, badexc: must surface as an exception, not as a lost connection or a hang
             if not (out[0] == "E" and out[1].startswith("exc:")):
                 viol.append(("unencodable-result:%s:%s" % (kind, out[1] if out[0] == "E" else "value"),
@@ -375,7 +389,7 @@ def main(tier, replay_obj=None):
     nreq = 3 if tier == "quick" else 4
     kinds = KINDS
     res = runner.Result(PID, "model_checking", tier,
-                        "A: all request streams of <= %d requests over 7 handler outcomes x {sync, async} with every placement of "
+                        "A: all request streams of <= %d requests over 9 handler outcomes x {sync, async} with every placement of "
                         "'collect result i', run on a real client/server Connection pair with a frame ledger at the transport; "
                         "B: every malformed request of a %d-entry menu x 8 sequence-number shapes, and all ordered pairs of menu "
                         "entries, each followed by a ping; states = distinct histories, transitions = events executed" % (nreq, len(malformed_menu())))
